@@ -30,6 +30,7 @@ func init() {
 				mc := mc
 				items = append(items, Item{ID: mc.ID(), Run: func(c *Ctx) { c08(c, mc) }})
 			}
+			items = append(items, c.arbItems(arbMode{reencode: true})...)
 			return items
 		}}
 	drivers["C15"] = &Driver{Prop: "C15", Level: "model_checking",
@@ -67,6 +68,7 @@ func init() {
 					items = append(items, Item{ID: "prim:" + p.Name, Run: func(c *Ctx) { decPrim(c, p, true, false) }})
 				}
 			}
+			items = append(items, c.arbItems(arbMode{noPanic: true})...)
 			return items
 		}}
 	drivers["C10"] = &Driver{Prop: "C10", Level: "model_checking",
@@ -85,6 +87,7 @@ func init() {
 				mc := mc
 				items = append(items, Item{ID: "msg:" + mc.ID(), Run: func(c *Ctx) { c10msg(c, mc) }})
 			}
+			items = append(items, c.arbItems(arbMode{alloc: true})...)
 			return items
 		}}
 }
